@@ -67,6 +67,11 @@ AL_ENV = {
     "array_list_expand_internal": 'tr.all (fun c => c.1 != "array_list_expand_internal" || (match c.2 with | [_, mx] => decide (mx ≤ 2305843009213693951) || decide (CALLEE_array_list_expand_internal ≠ 0) | _ => true))',
     "array_list_put_idx": 'tr.all (fun c => c.1 != "array_list_put_idx" || (match c.2 with | [_, ix, _] => decide (ix < 2305843009213693951) || decide (CALLEE_array_list_put_idx ≠ 0) | _ => true))',
 }
+STRLEN = sorted(set([0, 1, 7, 8, 9, 31, 32, 4096] + [IMAX - k for k in range(0, 6)] + [2**31, 2**31 + 1, 2**32 - 1, 2**32, 2**63 - 1, 2**63, SMAX - 1, SMAX]))
+SPECS["_json_object_set_string_len"] = dict(mod="TranslatedStr", fam=dict(width=64, K=[IMAX]), api=["ret", "jso_len"], post="true",
+    # a string node (type 6) or another one; the length field in both representations (>= 0: inline, < 0: separate buffer)
+    pools={"jso_o_type": [6, 6, 6, 6, 3], "len": STRLEN, "jso_len": [0, 1, 7, 8, 31, 32, 4096, IMAX - 2, -1, -8, -9, -32, -4096, -(IMAX - 2)],
+           "c8_get_string_component_mutable": [8192], "jso_c_string": [12288], "jso": [4096, 4096, 4096, 0], "s": [20480]})
 KEEP_CALLS = ["memmove", "memcpy", "memset", "free", "store1", "store8"]
 
 
@@ -101,8 +106,12 @@ def gen_inputs(fn, params, rng, n):
             break
         v = {}
         numeric = []
+        pools = SPECS[fn].get("pools", {})
         for name, ty in params:
             kind, base = role(name)
+            if name in pools:
+                v[name] = rng.choice(pools[name])
+                continue
             if ty.startswith("Nat →"):
                 v[name] = rng.choice([0, 1, 4096])
                 continue
@@ -179,7 +188,7 @@ def gen_inputs(fn, params, rng, n):
             if kind == "h" and name not in v:
                 src = next((x for x in numeric if x == base), None)
                 if src is None:
-                    v[name] = 0
+                    v[name] = v.get(base, 0)
                 elif base.endswith("_size") and callee == 0:
                     v[name] = IMAX if w == 32 else SMAX // 8
                 elif base.endswith("_length") and callee == 0 and fn == "array_list_insert_idx" and "put_idx" in " ".join(names):
